@@ -218,6 +218,25 @@ def check(ctx):
            "missing strings ('' in a fixed-width column) are keyed by the largest code point, so they sort after every real string" if oks else
            "fixed-width string keys keep '' for their missing values (or get another sentinel): '' sorts BEFORE every string, so rows "
            "with a missing key come first in an ascending sort", clause="Rows whose key is missing are placed ... at the end whenever that key is sorted ascending")
+    # the argsort optimisation keeps the key in the string family: only there does is_na() (== '') still find the
+    # missing values that the sentinel / rank step places last
+    opt = repo.functions.get(f"{VEC}._optimize_for_argsort")
+    if opt is not None:
+        casts = [c for _, c in calls_in(opt) if isinstance(c.func, ast.Attribute) and c.func.attr in ("astype", "view") and c.args]
+        for c in casts:
+            a = c.args[0]
+            lead = None
+            if isinstance(a, ast.JoinedStr) and a.values and isinstance(a.values[0], ast.Constant):
+                lead = str(a.values[0].value)
+            elif isinstance(a, ast.Constant) and isinstance(a.value, str):
+                lead = a.value
+            okc = (lead is not None and lead.lstrip("<>=|").startswith("U")) or norm(a) in ("str", "dtypes.string", "np.str_")
+            ctx.ob("ORD-key", opt, norm(c), c, okc,
+                   "the optimised key is still a (fixed-width) string column: '' is recognised as missing afterwards" if okc else
+                   f"the key is converted to {norm(a)}, which is not a string dtype: is_na() of the converted column no longer reports the "
+                   f"missing (empty) strings, so neither the sentinel nor rank() moves them to the end and they sort first",
+                   clause="Rows whose key is missing are placed ... at the end whenever that key is sorted ascending")
+        ctx.count("casts in _optimize_for_argsort", len(casts), 0)
     # ------------------------------------------------- GRD / OWN
     n = grd_empty(ctx, [sort], "sorting succeeds for empty frames and entirely missing columns",
                   only=lambda f: f.module.name in ("dataiter.vector", "dataiter.data_frame")
